@@ -152,8 +152,12 @@ pub fn eval_doc(doc: &Doc) -> (Vec<Failure>, u64) {
             Some(k) => format!("{:?}", k).to_lowercase(),
             None => "unbound".into(),
         };
-        let is_int = o.name == "int";
         let binding = binding_of(o);
+        // the predefined type and the predefined procedures have no declaration: renaming one
+        // of them cannot keep the diagnostics, so rename must not be offered for them (a local
+        // that is merely *named* int or printi is an ordinary variable)
+        let predefined = matches!(binding, Some(Binding::Builtin(_)));
+        let is_int = predefined && o.name == "int";
         let members: Vec<usize> = binding.as_ref().map(|b| sets[b].clone()).unwrap_or_default();
         // --- references: all *other* occurrences
         let want_refs: BTreeSet<(u64, u64, u64, u64)> =
@@ -187,9 +191,13 @@ pub fn eval_doc(doc: &Doc) -> (Vec<Failure>, u64) {
         let ren = result(*id_ren);
         let edits: Option<Vec<Value>> = ren.as_ref().and_then(|r| r.get("changes")).and_then(|c| c.get(URI)).and_then(|e| e.as_array().cloned());
         let offered = edits.is_some();
-        if is_int {
+        if predefined {
             if offered {
-                fails.push(Failure { key: "rename:int-offered".into(), case: doc.case(json!({"token": o.tok})), detail: "rename of int returned edits".into() });
+                fails.push(Failure {
+                    key: format!("rename:offered-for-predefined-{}", kind),
+                    case: doc.case(json!({"method": "textDocument/rename", "token": o.tok, "name": o.name, "new_name": fresh(o.tok), "position": doc.tok_positions(o.tok).last(), "expected_answer": Value::Null})),
+                    detail: format!("rename of the predefined {} {:?} returned edits {:?}", kind, o.name, edits),
+                });
             }
         } else {
             let got_edits: BTreeSet<(u64, u64, u64, u64)> = edits.iter().flatten().map(|e| range_key(&e["range"])).collect();
